@@ -91,7 +91,11 @@ pub fn profile(name: &str) -> Profile {
         cache_p: 0,
     };
     match name {
-        "c01" | "c02" | "c10" => {}
+        "c01" | "c10" => {}
+        "c02" => {
+            // more empty values: borrows of the null address must be given back like any other
+            p.none_p = 3;
+        }
         "c03" => {
             p.mixed = [20, 25, 10, 14, 2, 6, 10, 10, 5, 4, 1, 1, 0, 2];
             p.max_conts = 2;
@@ -170,12 +174,19 @@ impl<V: Val, S: StratExt<V>> Held<V, S> {
     }
 }
 
+/// Guards on the empty value (None / dangling Weak) the harness holds right now: they occupy
+/// borrow slots with the null address, which no object of the ledger accounts for.
+pub(crate) static NONE_GUARDS: std::sync::atomic::AtomicI64 = std::sync::atomic::AtomicI64::new(0);
+
 impl<V: Val, S: StratExt<V>> Drop for Held<V, S> {
     fn drop(&mut self) {
         // Dropped without `release` (a panic unwound through the frame that held it): the ledger
         // must still learn that the harness gives this guard up, before the guard itself goes.
         if let Some(g) = self.inner.as_ref() {
             g.note_guard(-1);
+            if g.addr() == 0 {
+                NONE_GUARDS.fetch_sub(1, SeqCst);
+            }
         }
     }
 }
@@ -183,6 +194,9 @@ impl<V: Val, S: StratExt<V>> Drop for Held<V, S> {
 fn hold<V: Val, S: StratExt<V>>(g: Guard<V, S>) -> Held<V, S> {
     let id = g.vid();
     g.note_guard(1);
+    if g.addr() == 0 {
+        NONE_GUARDS.fetch_add(1, SeqCst);
+    }
     Held { inner: Some(g), id }
 }
 
@@ -199,6 +213,9 @@ pub(crate) fn release<V: Val, S: StratExt<V>>(h: Held<V, S>) -> Guard<V, S> {
     let mut h = h;
     let g = h.inner.take().expect("guard already released");
     g.note_guard(-1);
+    if g.addr() == 0 {
+        NONE_GUARDS.fetch_sub(1, SeqCst);
+    }
     g
 }
 
@@ -837,6 +854,16 @@ pub(crate) fn quiescent_check<V: Val, S: StratExt<V>>(conts: &[Cont<V, S>], fin:
     let (_, occ, problems) = node_invariants(false);
     for p in problems {
         report("C02", "node-not-quiescent", format!("{} ({})", p, when));
+    }
+    // borrow slots holding the null address belong to live guards on the empty value, nothing else
+    let zero_slots = *occ.get(&0).unwrap_or(&0) as i64;
+    let none_guards = NONE_GUARDS.load(SeqCst);
+    if zero_slots > none_guards {
+        report(
+            "C02",
+            "slot-occupied-without-guard",
+            format!("{} debt slot(s) hold the null address (a borrow of the empty value) but only {} guard(s) on the empty value are alive ({})", zero_slots, none_guards, when),
+        );
     }
     let mut checked = 0;
     if tp::alloc_mode() != AllocMode::Real && V::NAME.contains("Tp") {
